@@ -1,8 +1,20 @@
-from props import _io
+from props import _io, _tables
 
-META = {"level": "bounded",
-        "trusted_base": ['google.protobuf runtime (message classes generated from /repo/proto by protoc)', 'oracles/io_oracles.py reference codec / parser (independent of /repo)'],
-        "assumptions": [],
-        "explanation": ''}
+META = {"level": "proof+bounded",
+        "trusted_base": ["google.protobuf runtime", "oracles/io_oracles.py reference codec (independent of /repo)",
+                         "iomodel (pyvc/iomodel.py)"],
+        "assumptions": ["the Java codec is not executed (no JVM harness in the check); the format definition used is "
+                        "AuxData.md / include/gtirb/AuxData.hpp as transcribed in contracts/codecs.py and oracles/io_oracles.py"],
+        "explanation": "Encode contracts of the leaf codecs state the appended bytes against the documented format (little-endian "
+                       "two's complement of the declared width, one byte bool, 16 raw UUID bytes, Offset = UUID + uint64, string = "
+                       "uint64 count of UTF-8 bytes + bytes) and are proved for all values; AuxData._to_protobuf is proved to "
+                       "write the encoding of the current value under the current type name. Containers, floats and dispatch: "
+                       "bounded comparison with the independent reference encoder/decoder."}
 
-bounded, replay_obligation = _io.make('C08', 'bytes of Serialization.encode compared byte for byte with an independent implementation of the documented format; reference bytes decoded by the API', 2000, 40000, oracle_prop='C07', extra=('C14',))
+bounded, replay_obligation = _io.make("C08", "bytes of Serialization.encode compared byte for byte with an independent implementation "
+                                      "of the documented format; reference bytes decoded by the API", 2000, 40000,
+                                      oracle_prop="C07", extra=("C14",))
+
+
+def extra_obligations(prog, schema, reg, eng):
+    return _tables.codec_table(prog)
